@@ -8,6 +8,7 @@ import Solstat.Spec.C09
 import Solstat.Spec.C08
 import Solstat.Spec.Dir
 import Solstat.Spec.Report
+import Solstat.Props.MapLoc
 import Solstat.Gen.Patterns
 /-!
 # Correspondence-check plumbing (not part of the verified model)
@@ -34,6 +35,7 @@ structure FileRec where
   tree : T
 
 structure St where
+  tokMaps : List ((String × String) × (List (Nat × Nat) × List (Nat × Nat))) := []
   files : List (String × FileRec) := []
   roots : List (String × T) := []
   detImpl : List ((String × String) × String) := []   -- (file id, detector fn) ↦ impl locs text
@@ -282,6 +284,39 @@ def itemsIndependent (parts : List T) : Bool :=
   let items := parts.zipIdx
   items.all fun (a, i) => items.all fun (b, j) =>
     i == j || (declaredStateNames a).all (fun n => !(mentionedNames b).contains n)
+
+/-! re-layout requests (C17) -/
+
+/-- token map `s1:e1>s2:e2;...` as (start map, end map) -/
+def parseTokMap (s : String) : List (Nat × Nat) × List (Nat × Nat) :=
+  let toks := (s.splitOn ";").filterMap fun t =>
+    match t.splitOn ">" with
+    | [a, b] =>
+      (match a.splitOn ":", b.splitOn ":" with
+       | [s1, e1], [s2, e2] =>
+         (match s1.toNat?, e1.toNat?, s2.toNat?, e2.toNat? with
+          | some a1, some a2, some b1, some b2 => some ((a1, b1), (a2, b2))
+          | _, _, _, _ => none)
+       | _, _ => none)
+    | _ => none
+  (toks.map (·.1), toks.map (·.2))
+
+def assocNat (m : List (Nat × Nat)) (k : Nat) : Option Nat := (m.find? (fun e => e.1 == k)).map (·.2)
+
+/-- the relocation a token map induces on locations: starts map with the token starts, ends with the
+token ends (an empty range sits at a token boundary of either kind) -/
+def relocate (starts ends : List (Nat × Nat)) (l : Loc) : Option Loc :=
+  if l.start == l.stop then
+    -- an empty range sits between two tokens: (end of the previous one, start of the next one)
+    match (assocNat ends l.start).orElse (fun _ => assocNat starts l.start),
+          (assocNat starts l.stop).orElse (fun _ => assocNat ends l.stop) with
+    | some s', some e' => some ⟨l.fileNo, s', e'⟩
+    | _, _ => none
+  else
+    match (assocNat starts l.start).orElse (fun _ => assocNat ends l.start),
+          (assocNat ends l.stop).orElse (fun _ => assocNat starts l.stop) with
+    | some s', some e' => some ⟨l.fileNo, s', e'⟩
+    | _, _ => none
 
 def lookup {α : Type} (m : List (String × α)) (k : String) : Option α := (m.find? (fun e => e.1 == k)).map (·.2)
 
